@@ -1,8 +1,10 @@
 import os, sys
 sys.path.insert(0, os.path.join(os.path.dirname(os.path.abspath(__file__)), '..', 'lib'))
 sys.path.insert(0, os.path.dirname(os.path.abspath(__file__)))
-import vlib, flow
+import vlib, flow, gen_trans
 import pt_common as pc
+
+gen_trans.register('mm_vmm.json')   # Go -> Gallina translation of the pageTableEntry / Frame / Page helpers (Gen/Trans_mm_vmm.v, used by Vmm/PtTrans.v)
 from pt_common import LO, P, RW, US, HUGE, COW, NX, M64, M36
 
 
@@ -18,11 +20,11 @@ class C06(flow.Spec):
             'each upper level, fault addresses inside and outside mapped pages, error codes 0-31, several pages sharing the zero frame, '
             'repeated faults, allocator failure at each step (copy frame, each temp-mapping table), copy frame = zero frame; '
             'non-trivial = at least one fault; distinct = distinct op lists')
-    assumptions = ['physical memory and the MMU are simulated by the harness (see C04); the faulting page shows the frame its translation names '
-                   '(a shared mapping of the arena page is placed at the fault address)',
-                   'frames handed out by the allocator for page tables are fresh (C01); the copy frame may be anything',
-                   'that a hardware write fault re-executes correctly after the handler returns is outside the model',
-                   'kfmt output of the panic path is discarded']
+    assumptions = [
+        "physical memory and the MMU are simulated by the harness (see C04); the faulting page shows the frame its translation names (a shared mapping of the arena page is placed at the fault address), so recoverable faults are generated inside the harness's view window only",
+        "theorem domain: fault page outside slot 511 and not the temp-mapping page, the page shows a backed data frame that is neither a page table nor in the allocator's free list; frames handed out for page tables are fresh (C01), the copy frame may be anything (the zero frame is refused by MapTemporary -> panic)",
+        'zero_frame_inv: active address space, requests with frames < 2^40 and flags outside bits 12-51 (a frame number >= 2^40 aliases the zero frame past the guard: domain restriction), faults on pages that share the zero frame; a panicking fault ends the history',
+        'that a hardware write fault re-executes correctly after the handler returns is outside the model; kfmt output of the panic path is discarded']
     partial = []
 
     def gen_cases(self, rng, tier):
